@@ -1,7 +1,7 @@
 (* C14 - Records, varints and spilled payloads decode exactly per the file
    format.  Property theorems only; proofs are in Proofs/. *)
 From SQ Require Import Model.Base Model.Varint Model.Record Model.Payload Model.Btree Model.Page Spec.Encode
-     Proofs.BaseP Proofs.VarintP Proofs.RecordP Proofs.PayloadP Proofs.PageP Gen.Arith Proofs.ArithP Gen.VarintStep Proofs.VarintStepP.
+     Proofs.BaseP Proofs.VarintP Proofs.RecordP Proofs.PayloadP Proofs.PageP Gen.Arith Proofs.ArithP Gen.VarintStep Proofs.VarintStepP Gen.RecordSwitch Proofs.RecordSwitchP.
 
 (* every unsigned 64-bit value, hence all nine varint lengths *)
 Theorem C14_varint : forall v rest, 0 <= v < 2 ^ 64 ->
@@ -202,3 +202,11 @@ Theorem C14_source_varint : forall bs fuel, (9 <= fuel)%nat ->
   go_rv fuel 0 0 bs = Some (go_varint_result (read_varint bs)).
 Proof. exact go_readVarint_spec. Qed.
 Print Assumptions C14_source_varint.
+
+(* parseRecord's `switch c` IS the model's parse_value: Gen/RecordSwitch.v lists, for every case of the source's switch, its
+   serial types, the body bytes it requires, the bytes it consumes and its value expression, and the two length expressions of
+   the default case (translated from db/record.go on every build); read as a switch it decodes every serial type c - negative
+   ones and the reserved 10 / 11 included - from every body exactly as the model does *)
+Theorem C14_source_record_switch : forall c body, parse_value c body = go_parse_value c body.
+Proof. exact go_parse_value_spec. Qed.
+Print Assumptions C14_source_record_switch.
